@@ -56,7 +56,11 @@ func (j *JsonConverter) importSchema() error {
 func (j *JsonConverter) importFullType(fullType *FullType) (err error) {
 	switch fullType.Kind {
 	case SCALAR:
-		j.doc.ImportScalarTypeDefinition(fullType.Name, fullType.Description)
+		var directiveRefs []int
+		if fullType.SpecifiedByURL != nil {
+			directiveRefs = append(directiveRefs, j.importSpecifiedByDirective(*fullType.SpecifiedByURL))
+		}
+		j.doc.ImportScalarTypeDefinitionWithDirectives(fullType.Name, fullType.Description, directiveRefs)
 	case OBJECT:
 		err = j.importObject(fullType)
 	case ENUM:
@@ -271,6 +275,16 @@ func (j *JsonConverter) importDefaultValue(defaultValue *string) (out ast.Defaul
 		IsDefined: true,
 		Value:     importer.ImportValue(value, from, j.doc),
 	}, nil
+}
+
+func (j *JsonConverter) importSpecifiedByDirective(url string) (ref int) {
+	valueRef := j.doc.ImportStringValue([]byte(url), false)
+	value := ast.Value{
+		Kind: ast.ValueKindString,
+		Ref:  valueRef,
+	}
+	j.doc.AddValue(value)
+	return j.doc.ImportDirective(SpecifiedByDirectiveName, []int{j.doc.ImportArgument("url", value)})
 }
 
 func (j *JsonConverter) importDeprecatedDirective(reason *string) (ref int) {
